@@ -187,4 +187,189 @@ theorem parse_unclosed_call (c : Cst) (hwf : c.WF = true) (hc : Conv c = true) (
     cases f <;> (simp only [Fn.name, List.cons_append, List.nil_append]; rw [headNB_blank_cons hb1 (by decide)]; decide)
   exact (err_up_from_fun hF hm).2.2.2.parse
 
+
+/-! ### a dangling operator after *any* expression
+
+The operator attaches to the last operand on the right spine of the tree, so the error has to be carried
+through the levels. -/
+
+/-- A `^` with a failing operand after a power-level tree. -/
+def PowErr (c : Cst) : Prop :=
+  ∀ (w tail : List Char) (e : ParseError), Blank w → PowTo tail (.err e) →
+    PowTo (c.flatten ++ (w ++ '^' :: tail)) (.err e)
+
+/-- ... after a tree at the level of unary minus. -/
+def NegErr (c : Cst) : Prop :=
+  ∀ (b : Bool) (w tail : List Char) (e : ParseError), Blank w → PowTo tail (.err e) →
+    ∃ f s', NegLoopTo b (c.flatten ++ (w ++ '^' :: tail)) (.ok (f, s')) ∧
+      s'.length ≤ (c.flatten ++ (w ++ '^' :: tail)).length ∧ PowTo s' (.err e)
+
+theorem powErr_of_atom {c : Cst} (hA : ClaimA c) : PowErr c := fun w tail e hw ht =>
+  rule_pow_some_err (hA _ (noExt_blank_cons (t := tail) hw (c := '^') (by decide))) (by simp)
+    (reLit_hit hw (by decide)) ht
+
+theorem negErr_of_powErr {c : Cst} (hwf : c.WF = true) (hc : Conv c = true) (hl : 3 ≤ c.level)
+    (h : PowErr c) : NegErr c := by
+  intro b w tail e hw ht
+  obtain ⟨ch, hh, hs⟩ := head_of_level_ge3 c hwf hc hl (w ++ '^' :: tail)
+  refine ⟨b, _, rule_negloop_none (reLit_miss ?_), Nat.le_refl _, h w tail e hw ht⟩
+  rw [hh]; intro e2; simp only [Option.some.injEq] at e2; exact hs.ne_minus e2
+
+theorem err_all : ∀ (c : Cst), c.WF = true → Conv c = true → c.bigInt = false →
+    (3 ≤ c.level → PowErr c) ∧ (2 ≤ c.level → NegErr c)
+  | .lit w t, hwf, hc, hs => by
+    have hP := powErr_of_atom ((inv_all _ hwf hc hs).a rfl)
+    exact ⟨fun _ => hP, fun _ => negErr_of_powErr hwf hc (by simp [Cst.level]) hP⟩
+  | .paren w1 a w2, hwf, hc, hs => by
+    have hP := powErr_of_atom ((inv_all _ hwf hc hs).a rfl)
+    exact ⟨fun _ => hP, fun _ => negErr_of_powErr hwf hc (by simp [Cst.level]) hP⟩
+  | .app w1 f w2 a w3, hwf, hc, hs => by
+    have hP := powErr_of_atom ((inv_all _ hwf hc hs).a rfl)
+    exact ⟨fun _ => hP, fun _ => negErr_of_powErr hwf hc (by simp [Cst.level]) hP⟩
+  | .neg w0 a, hwf, hc, hs => by
+    have hwf' := hwf
+    simp only [Cst.WF, Bool.and_eq_true] at hwf'
+    have hc' := conv_neg.mp hc
+    have ih := (err_all a hwf'.2 hc'.2 (by simpa [Cst.bigInt] using hs)).2 hc'.1
+    refine ⟨fun h => by simp [Cst.level] at h, fun _ => ?_⟩
+    intro b w tail e hw ht
+    obtain ⟨f, s', h1, hl, h2⟩ := ih (!b) w tail e hw ht
+    refine ⟨f, s', ?_, ?_, h2⟩
+    · have := rule_negloop_some (b := b)
+        (reLit_hit (t := a.flatten ++ (w ++ '^' :: tail)) (blank_of_all hwf'.1) (by decide)) h1
+      simpa only [Cst.flatten, List.append_assoc, List.cons_append] using this
+    · simp only [Cst.flatten, List.append_assoc, List.cons_append, List.length_append, List.length_cons] at *
+      omega
+  | .bin op a w0 x, hwf, hc, hs => by
+    cases op with
+    | pow =>
+      have hwf' := hwf
+      simp only [Cst.WF, Bool.and_eq_true] at hwf'
+      have hc' := conv_bin.mp hc
+      simp only [BinOp.needs] at hc'
+      have hs' : a.bigInt = false ∧ x.bigInt = false := by simpa [Cst.bigInt] using hs
+      have ihx := (err_all x hwf'.2 hc'.2.2.2 hs'.2).1 hc'.2.1
+      have hAa := (inv_all a hwf'.1.1 hc'.2.2.1 hs'.1).a (by have := level_le a; omega)
+      have hw0 := blank_of_all hwf'.1.2
+      have hP : PowErr (.bin .pow a w0 x) := by
+        intro w tail e hw ht
+        have h1 := hAa (w0 ++ '^' :: (x.flatten ++ (w ++ '^' :: tail))) (noExt_blank_cons hw0 (by decide))
+        have := rule_pow_some_err h1 (by simp) (reLit_hit hw0 (by decide)) (ihx w tail e hw ht)
+        simpa only [Cst.flatten, BinOp.sym, List.append_assoc, List.cons_append] using this
+      exact ⟨fun _ => hP, fun _ => negErr_of_powErr hwf hc (by simp [Cst.level]) hP⟩
+    | add => exact ⟨fun h => by simp [Cst.level] at h, fun h => by simp [Cst.level] at h⟩
+    | sub => exact ⟨fun h => by simp [Cst.level] at h, fun h => by simp [Cst.level] at h⟩
+    | mul => exact ⟨fun h => by simp [Cst.level] at h, fun h => by simp [Cst.level] at h⟩
+    | div => exact ⟨fun h => by simp [Cst.level] at h, fun h => by simp [Cst.level] at h⟩
+
+theorem after_pow {w tail : List Char} (hw : Blank w) : After ['*', '/', '+', '-'] (w ++ '^' :: tail) :=
+  after_sym hw (by decide) (by decide) (by decide)
+
+theorem negTo_err {c : Cst} (hwf : c.WF = true) (hc : Conv c = true) (hs : c.bigInt = false)
+    (hl : 2 ≤ c.level) {w tail : List Char} {e : ParseError} (hw : Blank w) (ht : PowTo tail (.err e)) :
+    NegTo (c.flatten ++ (w ++ '^' :: tail)) (.err e) := by
+  obtain ⟨f, s', h1, hl', h2⟩ := (err_all c hwf hc hs).2 hl false w tail e hw ht
+  exact rule_neg_err h1 hl' h2
+
+/-- The rest `w ++ op :: …` for `op ∈ {*, /}` may follow an operand of unary-minus level. -/
+theorem after_muldiv {w t : List Char} {op : BinOp} (hop : op = .mul ∨ op = .div) (hw : Blank w) :
+    After ['^'] (w ++ op.sym :: t) ∧ reOp2 '*' '/' (w ++ op.sym :: t) = some (op.sym, t) := by
+  rcases hop with h | h <;> subst h
+  · exact ⟨after_sym hw (by decide) (by decide) (by decide), reOp2_hit hw (by decide) (.inl rfl)⟩
+  · exact ⟨after_sym hw (by decide) (by decide) (by decide), reOp2_hit hw (by decide) (.inr rfl)⟩
+
+theorem after_addsub {w t : List Char} {op : BinOp} (hop : op = .add ∨ op = .sub) (hw : Blank w) :
+    After ['^', '*', '/'] (w ++ op.sym :: t) ∧ reOp2 '-' '+' (w ++ op.sym :: t) = some (op.sym, t) := by
+  rcases hop with h | h <;> subst h
+  · exact ⟨after_sym hw (by decide) (by decide) (by decide), reOp2_hit hw (by decide) (.inr rfl)⟩
+  · exact ⟨after_sym hw (by decide) (by decide) (by decide), reOp2_hit hw (by decide) (.inl rfl)⟩
+
+theorem prodTo_err {c : Cst} (hwf : c.WF = true) (hc : Conv c = true) (hs : c.bigInt = false)
+    (hl : 1 ≤ c.level) {w tail : List Char} {e : ParseError} (hw : Blank w) (ht : PowTo tail (.err e)) :
+    ProdTo (c.flatten ++ (w ++ '^' :: tail)) (.err e) := by
+  by_cases h2 : 2 ≤ c.level
+  · exact rule_prod_err (negTo_err hwf hc hs h2 hw ht)
+  · cases c with
+    | lit _ _ => simp [Cst.level] at h2
+    | neg _ _ => simp [Cst.level] at h2
+    | app _ _ _ _ _ => simp [Cst.level] at h2
+    | paren _ _ _ => simp [Cst.level] at h2
+    | bin op a w0 x =>
+      have hop : op = .mul ∨ op = .div := by
+        cases op <;> simp [Cst.level] at h2 hl ⊢
+      have hwf' := hwf
+      simp only [Cst.WF, Bool.and_eq_true] at hwf'
+      have hc' := conv_bin.mp hc
+      have hs' : a.bigInt = false ∧ x.bigInt = false := by simpa [Cst.bigInt] using hs
+      have hn : 1 ≤ a.level ∧ 2 ≤ x.level := by
+        rcases hop with h | h <;> (subst h; simpa [BinOp.needs] using ⟨hc'.1, hc'.2.1⟩)
+      obtain ⟨hA, hR⟩ := after_muldiv (t := x.flatten ++ (w ++ '^' :: tail)) hop (blank_of_all hwf'.1.2)
+      have := (inv_all a hwf'.1.1 hc'.2.2.1 hs'.1).d hn.1 _ (.err e) hA
+        (rule_prodloop_err hR (negTo_err hwf'.2 hc'.2.2.2 hs'.2 hn.2 hw ht))
+      simpa only [Cst.flatten, List.append_assoc, List.cons_append] using this
+
+theorem sumTo_err_pow {c : Cst} (hwf : c.WF = true) (hc : Conv c = true) (hs : c.bigInt = false)
+    {w tail : List Char} {e : ParseError} (hw : Blank w) (ht : PowTo tail (.err e)) :
+    SumTo (c.flatten ++ (w ++ '^' :: tail)) (.err e) := by
+  by_cases h1 : 1 ≤ c.level
+  · exact rule_sum_err (prodTo_err hwf hc hs h1 hw ht)
+  · cases c with
+    | lit _ _ => simp [Cst.level] at h1
+    | neg _ _ => simp [Cst.level] at h1
+    | app _ _ _ _ _ => simp [Cst.level] at h1
+    | paren _ _ _ => simp [Cst.level] at h1
+    | bin op a w0 x =>
+      have hop : op = .add ∨ op = .sub := by
+        cases op <;> simp [Cst.level] at h1 ⊢
+      have hwf' := hwf
+      simp only [Cst.WF, Bool.and_eq_true] at hwf'
+      have hc' := conv_bin.mp hc
+      have hs' : a.bigInt = false ∧ x.bigInt = false := by simpa [Cst.bigInt] using hs
+      have hn : 1 ≤ x.level := by
+        rcases hop with h | h <;> (subst h; simpa [BinOp.needs] using hc'.2.1)
+      obtain ⟨hA, hR⟩ := after_addsub (t := x.flatten ++ (w ++ '^' :: tail)) hop (blank_of_all hwf'.1.2)
+      have := (inv_all a hwf'.1.1 hc'.2.2.1 hs'.1).e _ (.err e) hA
+        (rule_sumloop_err hR (prodTo_err hwf'.2 hc'.2.2.2 hs'.2 hn hw ht))
+      simpa only [Cst.flatten, List.append_assoc, List.cons_append] using this
+
+/-- A `^` whose operand fails at the power level, after any expression. -/
+theorem parse_dangling_power_any (c : Cst) (hwf : c.WF = true) (hc : Conv c = true) (hs : c.bigInt = false)
+    (w : List Char) (hw : w.all isBlank = true) (tail : List Char) (e : ParseError)
+    (ht : PowTo tail (.err e)) : parse (c.flatten ++ (w ++ '^' :: tail)) = .err e :=
+  (sumTo_err_pow hwf hc hs (blank_of_all hw) ht).parse
+
+/-- A `*` or `/` followed by text that cannot start an expression, after any expression. -/
+theorem parse_dangling_product_any (c : Cst) (hwf : c.WF = true) (hc : Conv c = true) (hs : c.bigInt = false)
+    (w : List Char) (hw : w.all isBlank = true) (op : Char) (hop : op = '*' ∨ op = '/')
+    (tail : List Char) (ht : cannotStart tail = true) :
+    parse (c.flatten ++ (w ++ op :: tail)) = .err (.invalidArgument tail) := by
+  by_cases h1 : 1 ≤ c.level
+  · exact parse_dangling_product c hwf hc hs h1 w hw op hop tail ht
+  · have hb := blank_of_all hw
+    have hws : isWs op = false := by rcases hop with h | h <;> (subst h; decide)
+    have hne : isDigit op = false ∧ op ≠ '.' ∧ op ≠ 'e' ∧ op ≠ 'E' := by
+      rcases hop with h | h <;> (subst h; decide)
+    have hnot : op ∉ ['^'] := by rcases hop with h | h <;> (subst h; decide)
+    cases c with
+    | lit _ _ => simp [Cst.level] at h1
+    | neg _ _ => simp [Cst.level] at h1
+    | app _ _ _ _ _ => simp [Cst.level] at h1
+    | paren _ _ _ => simp [Cst.level] at h1
+    | bin bop a w0 x =>
+      have hbop : bop = .add ∨ bop = .sub := by
+        cases bop <;> simp [Cst.level] at h1 ⊢
+      have hwf' := hwf
+      simp only [Cst.WF, Bool.and_eq_true] at hwf'
+      have hc' := conv_bin.mp hc
+      have hs' : a.bigInt = false ∧ x.bigInt = false := by simpa [Cst.bigInt] using hs
+      have hn : 1 ≤ x.level := by
+        rcases hbop with h | h <;> (subst h; simpa [BinOp.needs] using hc'.2.1)
+      obtain ⟨hA, hR⟩ := after_addsub (t := x.flatten ++ (w ++ op :: tail)) hbop (blank_of_all hwf'.1.2)
+      have hx : ProdTo (x.flatten ++ (w ++ op :: tail)) (.err (.invalidArgument tail)) :=
+        (inv_all x hwf'.2 hc'.2.2.2 hs'.2).d hn _ _ (after_sym hb hws hne hnot)
+          (rule_prodloop_err (reOp2_hit hb hws hop) (cannotStart_levels ht).2.1)
+      have := (inv_all a hwf'.1.1 hc'.2.2.1 hs'.1).e _ _ hA (rule_sumloop_err hR hx)
+      have h2 := this.parse
+      simpa only [Cst.flatten, List.append_assoc, List.cons_append] using h2
+
 end Q1t.Proofs.Expr
